@@ -689,6 +689,16 @@ class Executor:
 
     def _pure(self, e, st: State):
         """evaluate an expression that must not fork or raise"""
+        if isinstance(e, ast.IfExp):
+            # a conditional expression inside a comprehension: If(test, body, orelse) instead of forking
+            c = self.truthy(self._pure(e.test, st), st)
+            a, b = self._pure(e.body, st), self._pure(e.orelse, st)
+            none_as = getattr(self, "none_as", None)
+            a = none_as if isinstance(a, NoneV) and none_as is not None else self.lift(a)
+            b = none_as if isinstance(b, NoneV) and none_as is not None else self.lift(b)
+            if z3.is_expr(a) and z3.is_expr(b) and a.sort() == b.sort():
+                return z3.If(c, a, b)
+            raise Unsupported("conditional expression with mixed branch types inside a comprehension")
         n0 = len(self.s.obligations)
         res = self.ev(e, st)
         if len(res) != 1 or isinstance(res[0][0], Raised):
@@ -1077,7 +1087,8 @@ class Executor:
             if not isinstance(base, Ref):
                 raise Unsupported("subscript store into non-heap value")
             if isinstance(c, DictV):
-                st.heap[base.addr] = c.store(self.lift(idx), self.lift(v))
+                vv = z3.IntVal(v.addr) if isinstance(v, Ref) and c.vsort == z3.IntSort() else self.lift(v)
+                st.heap[base.addr] = c.store(self.lift(idx), vv)
                 return None
             if isinstance(c, PyDict) and isinstance(idx, (str, int)):
                 d = dict(c.items)
